@@ -17,7 +17,7 @@
  *                 event (used for the lock-coverage check; no model replay at this granularity)
  *   sched random <seed> | pct <seed> <depth> | replay <tokens...> | prefix <tokens...>
  *                 (prefix: replay, then continue non-preemptively; prints "#enabled <mask per step>")
- *   spurious <cas_permille> <cv_permille>
+ *   spurious <cas_permille> <cv_permille> [<futex_permille>]   (futex: a parked futex wait returns EINTR)
  *   run           -> schedule, events, [state lines], end, outcome
  */
 #include "vharness.h"
@@ -232,7 +232,7 @@ static int setup(void)
 }
 
 static int g_pol; static uint64_t g_seed; static int g_depth; static char g_replay[1 << 17];
-static int g_sp_cas, g_sp_cv;
+static int g_sp_cas, g_sp_cv, g_sp_fx;
 
 static int parse_wl(const char *s)
 {
@@ -267,7 +267,7 @@ static void print_ids(const char *key, const int *v, int n)
 static void vh_op(int argc, char **argv)
 {
 	if (!strcmp(argv[0], "conf") && argc >= 2) {
-		g_sp_cas = g_sp_cv = 0; g_pol = 0; g_seed = 1; g_kind = K_NONE; g_fine = 0;
+		g_sp_cas = g_sp_cv = g_sp_fx = 0; g_pol = 0; g_seed = 1; g_kind = K_NONE; g_fine = 0;
 		for (int i = 2; i < argc; i++)
 			if (!(i <= 3 && !strcmp(argv[1], "chan")) && !all_digits(argv[i])) { printf("bad-op\n"); return; }
 		if (!strcmp(argv[1], "chan") && argc >= 8 && argc - 7 <= MAXW - 1) {
@@ -316,8 +316,9 @@ static void vh_op(int argc, char **argv)
 		printf("ok\n");
 		return;
 	}
-	if (!strcmp(argv[0], "spurious") && argc == 3) {
-		g_sp_cas = atoi(argv[1]); g_sp_cv = atoi(argv[2]); printf("ok\n"); return;
+	if (!strcmp(argv[0], "spurious") && (argc == 3 || argc == 4)) {
+		g_sp_cas = atoi(argv[1]); g_sp_cv = atoi(argv[2]); g_sp_fx = argc == 4 ? atoi(argv[3]) : 0;
+		printf("ok\n"); return;
 	}
 	if (!strcmp(argv[0], "run") && g_kind != K_NONE) {
 		int rc = setup();
@@ -327,6 +328,7 @@ static void vh_op(int argc, char **argv)
 		else if (g_pol == 3) { vs_policy_prefix(g_replay); vs_trace_enabled(1); }
 		else vs_policy_replay(g_replay);
 		vs_set_spurious(g_sp_cas, g_sp_cv);
+		vs_set_spurious_futex(g_sp_fx);
 		vs_set_max_steps(6000);
 		vs_run();
 		vs_print(stdout);
